@@ -107,7 +107,7 @@ impl img::DiskImage for Img {
     fn read_sector(&mut self,cyl: usize,head: usize,sec: usize) -> Result<Vec<u8>,DYNERR> {
         let track = self.ch_2_track([cyl, head]);
         trace!("reading {}/{}/{}",cyl,head,sec);
-        if track>=self.track_count() || sec<1 || sec>self.sectors as usize {
+        if head>=self.heads || track>=self.track_count() || sec<1 || sec>self.sectors as usize {
             error!("track/sector range should be 0-{}/1-{}",self.track_count()-1,self.sectors);
             return Err(Box::new(img::Error::SectorAccess));
         }
@@ -117,7 +117,7 @@ impl img::DiskImage for Img {
     fn write_sector(&mut self,cyl: usize,head: usize,sec: usize,dat: &[u8]) -> STDRESULT {
         let track = self.ch_2_track([cyl, head]);
         trace!("writing {}/{}/{}",cyl,head,sec);
-        if track>=self.track_count() || sec<1 || sec>self.sectors as usize {
+        if head>=self.heads || track>=self.track_count() || sec<1 || sec>self.sectors as usize {
             error!("track/sector range should be 0-{}/1-{}",self.track_count()-1,self.sectors);
             return Err(Box::new(img::Error::SectorAccess));
         }
